@@ -114,6 +114,18 @@ fn compute_non_local_scalars(cfg: &il::ControlFlowGraph) -> HashSet<il::Scalar> 
                     killed.insert(scalar);
                 });
         });
+
+        // The conditions of outgoing edges are evaluated at the end of the block
+        if let Ok(edges_out) = cfg.edges_out(block.index()) {
+            edges_out
+                .into_iter()
+                .filter_map(|edge| edge.condition())
+                .flat_map(|condition| condition.scalars())
+                .filter(|scalar| !killed.contains(scalar))
+                .for_each(|scalar| {
+                    non_locals.insert(scalar.clone());
+                });
+        }
     }
 
     non_locals
